@@ -74,7 +74,13 @@ def main():
                                        env=dict(os.environ, PYTHONPATH=tmp), capture_output=True, text=True)
                     print("MUTANT %s: suite %s" % (mid, r.stdout.strip().splitlines()[-1] if r.stdout.strip() else r.stderr[-200:]))
                 env = dict(os.environ, ADVF_REPO=tmp, ADVF_OUT=os.path.join(tmp, "out"))
-                r = subprocess.run(["/venv/bin/python", "-m", "advf", "check", p, "--tier", tier], cwd="/verif", env=env, capture_output=True, text=True)
+                try:
+                    r = subprocess.run(["/venv/bin/python", "-m", "advf", "check", p, "--tier", tier], cwd="/verif", env=env, capture_output=True, text=True, timeout=900)
+                except subprocess.TimeoutExpired:
+                    print("MUTANT %-40s %s TIMEOUT (900 s)" % (mid, p))
+                    subprocess.run(["pkill", "-f", "advf check %s" % p])
+                    failures += 1
+                    continue
                 lines = [l for l in r.stdout.splitlines() if l.startswith("VIOLATION") or l.startswith("  part=")]
                 verdict = "KILLED" if r.returncode == 1 else ("SURVIVED" if r.returncode == 0 else "HARNESS-ERROR")
                 if verdict != "KILLED":
